@@ -13,16 +13,24 @@ def human_status(how):
     if how.startswith('sig:'):
         n = int(how[4:])
         name = {int(getattr(signal, s)): s for s in SIGS + ['SIGABRT']}.get(n)
+        if name is None:                      # real-time signals have no name
+            return 'signal %d' % n
         return 'signal %d (%s)' % (n, name)
     if how == 'abort':
         return 'signal %d (SIGABRT)' % int(signal.SIGABRT)
     return 'exitcode %s' % how[5:]
 
 
+def _names(msg, want):
+    import re
+    return re.search(re.escape(want) + r'(?!\d)', msg) is not None
+
+
 def plan(tier, seed):
     rng = rng_for(seed, 'c04real')
     causes = ['sig:%d' % int(getattr(signal, s)) for s in SIGS] + ['abort'] + \
-        ['exit:%d' % n for n in EXITS]
+        ['exit:%d' % n for n in EXITS] + \
+        ['sig:%d' % n for n in (signal.SIGRTMIN + 6, signal.SIGRTMAX)]   # unnamed signals
     cells = []
     for how in causes:
         for point in POINTS:
@@ -32,15 +40,22 @@ def plan(tier, seed):
     rng.shuffle(cells)
     n = 18 if tier == 'quick' else len(cells)
     chosen = cells[:n]
+    if tier == 'quick' and not any(int(c[0][4:]) >= signal.SIGRTMIN for c in chosen
+                                   if c[0].startswith('sig:')):
+        chosen.append(('sig:%d' % (signal.SIGRTMIN + 6), 'mid', 'apply', False))
     extra_kinds = [('sig:9', 'mid', 'map', False), ('exit:1', 'mid', 'imap_u', False),
-                   ('sig:11', 'entry', 'imap', False)]
+                   ('sig:11', 'entry', 'imap', False),
+                   # chunked: the caller's grace period must reach the chunked handle too
+                   ('sig:9', 'mid', 'imap_u', False, 2), ('exit:70', 'mid', 'imap', False, 2)]
     if tier != 'quick':
         extra_kinds += [(h, p, k, False) for h in ('sig:9', 'exit:155', 'exit:0')
                         for p in ('entry', 'finally') for k in ('map', 'imap', 'imap_u')]
     specs = []
-    for (how, point, kind, ext) in chosen + extra_kinds:
+    for cell in chosen + extra_kinds:
+        (how, point, kind, ext), chunk = cell[:4], (cell[4] if len(cell) > 4 else 1)
         nproc = rng.choice([1, 2, 3, 4])
         specs.append({'lane': 'real', 'timeout': 100, 'params': {
+            'chunk': chunk,
             'how': how, 'point': point, 'job_kind': kind, 'external': ext, 'nproc': nproc,
             'T_job': rng.choice([0.3, 1.0]), 'T': 2.0,
             'others': 0 if nproc == 1 else rng.choice([1, nproc - 1]), 'other_dur': 0.6}})
@@ -75,7 +90,7 @@ def run_spec(spec, rec):
     rec.count('real:death_scenarios')
     kind = p['job_kind']
     attrs = {'lane': 'real', 'job_kind': kind, 'cause': p['how'].split(':')[0],
-             'point': p['point'], 'external': p['external']}
+             'point': p['point'], 'external': p['external'], 'chunked': p.get('chunk', 1) > 1}
     if r['status'] != 'ok':
         rec.violation('host_process_died' if r['status'] == 'died' else 'pool_hung_after_worker_death',
                       attrs, rc=r['rc'], obs=obs, stderr=r['stderr'][-4000:], params=p)
@@ -98,7 +113,7 @@ def run_spec(spec, rec):
             rec.violation('lost_job_wrong_outcome', attrs, outcome=oc, params=p)
         else:
             rec.count('real:losses_reported')
-            if want not in oc[2]:
+            if not _names(oc[2], want):
                 rec.violation('loss_message_wrong_status', attrs, msg=oc[2], want=want)
             if obs.get('job_id') is not None and ('Job: %d' % obs['job_id']) not in oc[2]:
                 rec.violation('loss_message_wrong_job', attrs, msg=oc[2], job=obs['job_id'])
@@ -124,10 +139,19 @@ def run_spec(spec, rec):
             rec.count('real:losses_reported')
             rec.count('real:imap_losses_reported')
             want_shape = [vals[0], ['exc', 'WorkerLostError'], vals[1]]
-            if (shape != want_shape) if kind == 'imap' else \
+            if p.get('chunk', 1) > 1:
+                # chunk granularity: the chunk holding the dying item fails as a
+                # whole and the generator ends there; what came before is the
+                # job's own values
+                rec.count('real:chunked_imap_losses')
+                k = shape.index(['exc', 'WorkerLostError'])
+                own = [['ok', ['v', 'i.%d' % i]] for i in range(2 * p['chunk'])]
+                if any(x not in own for x in shape[:k]):
+                    rec.violation('lost_job_wrong_outcome', attrs, outcome=items, params=p)
+            elif (shape != want_shape) if kind == 'imap' else \
                     (sorted(map(repr, shape)) != sorted(map(repr, want_shape))):
                 rec.violation('lost_job_wrong_outcome', attrs, outcome=items, params=p)
-            if want not in lost[0][2]:
+            if not _names(lost[0][2], want):
                 rec.violation('loss_message_wrong_status', attrs, msg=lost[0][2], want=want)
             if t_dying is not None:
                 dt = lost[0][3] - t_dying
@@ -196,7 +220,7 @@ def run_after_close(spec, rec):
         rec.violation('lost_job_wrong_outcome', attrs, outcome=oc, params=p)
     else:
         rec.count('real:losses_reported')
-        if want not in oc[2]:
+        if not _names(oc[2], want):
             rec.violation('loss_message_wrong_status', attrs, msg=oc[2], want=want)
         t_dying = next((e['t'] for e in ev if e['k'] == 'task_dying'), None)
         if t_dying is not None and obs['t_resolved'] - t_dying < p['T_job'] - 0.02:
